@@ -89,6 +89,8 @@ def extra(chk, st):
     import p_c16
     import p_dupadapt
     p_dupadapt.stage(chk, "C15")
+    import p_transfail
+    p_transfail.stage(chk, "C15")
     # failed registrations at the level of Generic (shared fds -> EEXIST): nothing changes, and the registration can be retried
     p_c16.genlife(chk, st, prop="C15")
 
@@ -107,4 +109,7 @@ def replay(path):
     if "dupadapt case" in open(path).read():
         import p_dupadapt
         return p_dupadapt.replay(path)
+    if "transfail case" in open(path).read():
+        import p_transfail
+        return p_transfail.replay(path)
     return seqcheck.replay("C15", path, oracle)
